@@ -593,6 +593,7 @@ pub fn run(tier: Tier) -> i32 {
     let tier = Tier::Thorough;
     let cases = gen_cases(tier);
     rep.set("rule", json!("Parametric boundary exploration: limit kinds {depth, loop, var} x L in {1,2,3,5,10 (,100)} set through the API and through <config> x parameter in {L-1, L, L+1, 2L, 2L+3} x every construct that consumes the limit (11 nesting elements uniform and in alternating pairs, reuse chains, recursive reuse; count/while/until/for loops, nested and retried loops; literal, copied and self-doubling variables) plus the flat-length dimension (m siblings of 20 element kinds, m up to 20L / 250 at the default limit, at three wrapping levels). State = (document, configuration); transition = one execution of the real transform with the depth probe. Two-sided verdict: Err <=> parameter > L, Ok => exact count of rendered marker elements (no truncation), depth counter back to 0. Non-trivial = parameter within 1 of the boundary or a flat-length case."));
+    rep.set("also_later", json!("Rounds 4-5 added: limits configured between a waiting element and what it waits for, and inside a waiting element; nesting inside a passed-through <svg> and inside <defaults>."));
     rep.set("also", json!("Also: leaves which are shapes with text content, a separate <text>, CDATA, an explicit end tag, <box> content or a <title> child at every depth boundary; variable length counted in characters (multi-byte) and applied to for / loop variables; loops whose body waits for a forward reference."));
     let st = run_space(cases.len(), |i| check(&cases[i]));
     rep.set("states", json!(st.distinct_inputs));
